@@ -10,6 +10,17 @@ compared with the model (bounded/fasta_gen.py), so that "identical but wrong for
 Memory clause, small scope (deterministic): every chunk yielded by get_sequence_iter / get_gap_iter holds at
 most buffer_size residues and every span requested from sequence_bytes while streaming is at most buffer_size.
 
+Memory clause, small scope, reads: while streaming, no single read() from the FASTA file returns more than
+buffer_size residues (line terminators not counted): reading every whole line a span touches holds more than a
+buffer of one sequence as soon as lines are longer than the buffer.
+
+State across calls: ONE FastaIndex object used for a script of several calls - several FastaStreams with
+different gap characters and line lengths, different assemblies, the buffer_size attribute changed between
+calls, in different orders (all ordered pairs of a pool of (buffer, gap character) settings on a designed file
+with gaps shorter than / equal to / several times the buffers; random scripts on the random files).  Every call
+must write exactly what the model says for ITS gap character (= what fresh objects write), its chunks must be at
+most ITS buffer size, and the iterators called directly must deliver the same residues.
+
 Memory clause, resource check: tracemalloc peaks on a file with a long mixed record and a record that is one
 long gap (each hundreds of buffers), for EVERY public route that is given a buffer size, with a small buffer:
   - index_fasta_file(path, b);
@@ -20,6 +31,8 @@ long gap (each hundreds of buffers), for EVERY public route that is given a buff
     forward fragment, long reverse fragment, long gap), into a sink that only hashes;
   - thorough tier: the pretext-to-asm command (it has NO buffer option - checked in --help - so the bound is the
     documented default of 250 000) on a chromosome 34 default buffers long, FASTA in, FASTA out, no caches.
+The files include UNWRAPPED / long-line FASTA (whole record on one line, or lines tens of buffers long): the
+statement allows one input line while indexing only, so the streaming routes get no allowance for the line.
 Allowance (memory_limit): 16 x buffer_size + 64 KiB (+ 8 x input line while indexing); unchanged tree: 5-40 KB.
 Every file has records >= 2 x that limit (4.5 x in the quick tier), and the same routes are run with a buffer larger than
 everything: those peaks (not judged; reported under memory_discrimination) are 4-13 x the limit, i.e. a route
@@ -88,9 +101,32 @@ def assemblies_for(case, rng, extra=2):
     return out
 
 
-def stream_bytes(path, bs, idx, scaffolds, line_length, audit=None):
+class ReadSpy:
+    """file object that notes how many residues (bytes other than CR / LF) each read() returns"""
+
+    def __init__(self, fh, log):
+        self._fh = fh
+        self._log = log
+
+    def read(self, *args):
+        data = self._fh.read(*args)
+        self._log.append(len(data) - data.count(b"\n") - data.count(b"\r"))
+        return data
+
+    def __getattr__(self, name):
+        return getattr(self._fh, name)
+
+
+def spy_on_reads(fi, log):
+    """the file handle FastaIndex reads sequence from is a cached attribute: put a spy in its place"""
+    fi.__dict__["fasta_fileandle"] = ReadSpy(fi.fasta_file.open("rb"), log)
+
+
+def stream_bytes(path, bs, idx, scaffolds, line_length, audit=None, reads=None):
     fi = FastaIndex(path, bs)
     fi.index = idx
+    if reads is not None:
+        spy_on_reads(fi, reads)
     if audit is not None:
         real = fi.sequence_bytes
 
@@ -163,8 +199,9 @@ def check_file(case, path, buffers, assemblies, line_length):
             outs = {}
             for bs in buffers:
                 audit = []
+                reads = []
                 try:
-                    outs[bs] = stream_bytes(path, bs, idx_ref, scs, line_length, audit)
+                    outs[bs] = stream_bytes(path, bs, idx_ref, scs, line_length, audit, reads)
                 except Exception as e:  # noqa: BLE001
                     problems.append((f"streaming '{label}' with buffer {bs} raised {e!r}", {"buffer": bs, "assembly": scs}))
                     continue
@@ -173,6 +210,8 @@ def check_file(case, path, buffers, assemblies, line_length):
                     problems.append((f"streaming '{label}' with buffer {bs} gives {len(outs[bs])} bytes, different from buffer {first} ({len(outs[first])} bytes)", {"buffer": bs, "assembly": scs}))
                 if audit and max(audit) > bs:
                     problems.append((f"streaming '{label}' with buffer {bs} requested {max(audit)} residues of one sequence at once", {"buffer": bs, "assembly": scs}))
+                if reads and max(reads) > bs:
+                    problems.append((f"streaming '{label}' with buffer {bs}: one read() from the FASTA file returned {max(reads)} residues of a sequence (line width {case.width}): more than buffer-size residues held at once", {"buffer": bs, "assembly": scs}))
                 try:
                     worst = chunk_sizes(path, bs, idx_ref, scs)
                 except Exception as e:  # noqa: BLE001
@@ -188,6 +227,133 @@ def check_file(case, path, buffers, assemblies, line_length):
     finally:
         G.remove_with_caches(path)
     return problems
+
+
+# ----------------------------------------------------------------------------------------------------------
+# state across calls: one FastaIndex, several streams / calls with different settings
+
+GAP_CHARS = ("N", "n", "-", "X")
+
+
+def run_step(fi, seqs, step):
+    """one call on the index object fi -> message or None.  step = [buffer_size, gap character, line length, [(name, specs)]]"""
+    bs, gc, line_length, scs = step
+    gcb = gc.encode("latin-1")
+    if fi.buffer_size != bs:
+        fi.buffer_size = bs
+    out = io.BytesIO()
+    FastaStream(out, fi, line_length=line_length, gap_character=gcb).write_assembly(
+        Assembly("a", scaffolds=[scaffold_from(n, specs) for n, specs in scs])
+    )
+    want = [(n, G.apply_rows(seqs, specs, gcb)) for n, specs in scs]
+    m = G.compare_written_fasta(out.getvalue(), want, line_length)
+    if m:
+        return f"FastaStream(gap_character={gcb!r}, line_length={line_length}) with buffer_size {bs}: {m[0]}"
+    # the iterators called directly, row by row
+    for n, specs in scs:
+        for spec, row in zip(specs, scaffold_from(n, specs).rows):
+            itr = fi.get_gap_iter(row, gcb) if spec[0] == "G" else fi.get_sequence_iter(row)
+            got = bytearray()
+            for chunk in itr:
+                b = chunk.getvalue()
+                if len(b) > bs:
+                    return f"{'get_gap_iter' if spec[0] == 'G' else 'get_sequence_iter'}({spec}) yielded a chunk of {len(b)} residues with buffer_size {bs}"
+                got += b
+            if bytes(got) != G.apply_rows(seqs, [spec], gcb):
+                return (
+                    f"{'get_gap_iter' if spec[0] == 'G' else 'get_sequence_iter'}({spec}, gap character {gcb!r}) with buffer_size {bs} "
+                    f"delivered {len(got)} residues {bytes(got[:24])!r}..., expected {spec_len(spec)} residues {G.apply_rows(seqs, [spec], gcb)[:24]!r}..."
+                )
+    return None
+
+
+def spec_len(spec):
+    return spec[1] if spec[0] == "G" else spec[3] - spec[2] + 1
+
+
+def run_script(path, idx, seqs, steps):
+    """all steps on ONE FastaIndex -> (index of the first failing step, message) or None"""
+    fi = FastaIndex(path, steps[0][0])
+    fi.index = idx
+    try:
+        for k, step in enumerate(steps):
+            try:
+                m = run_step(fi, seqs, step)
+            except Exception as e:  # noqa: BLE001
+                m = f"raised {e!r}"
+            if m:
+                return k, m
+    finally:
+        close_index(fi)
+    return None
+
+
+def check_shared(case, path, scripts):
+    """-> list of (message, steps that reproduce it)"""
+    problems = []
+    case.write(path)
+    try:
+        try:
+            idx, _ = index_fasta_file(path, 250_000)
+        except Exception:  # noqa: BLE001  (reported by check_file)
+            return problems
+        seqs = case.seqs()
+        for steps in scripts:
+            bad = run_script(path, idx, seqs, steps)
+            if bad is None:
+                continue
+            k, m = bad
+            alone = run_script(path, idx, seqs, [steps[k]])
+            if alone is not None:
+                problems.append((f"call on a fresh FastaIndex: {alone[1]}", [steps[k]]))
+                continue
+            # shortest history that shows it: one earlier call + the failing one, else the whole prefix
+            shown = steps[: k + 1]
+            for j in range(k):
+                pair = run_script(path, idx, seqs, [steps[j], steps[k]])
+                if pair is not None and pair[0] == 1:
+                    shown, m = [steps[j], steps[k]], pair[1]
+                    break
+            before = "; ".join(f"buffer_size {s[0]}, gap character {s[1]!r}, line length {s[2]}" for s in shown[:-1])
+            problems.append((
+                f"call {len(shown)} on ONE FastaIndex object (earlier calls on it: {before}) - {m}; the same call on a fresh "
+                "FastaIndex writes the expected bytes: the result depends on what the index object was used for before",
+                shown,
+            ))
+    finally:
+        G.remove_with_caches(path)
+    return problems
+
+
+def designed_shared_case():
+    """two records, gaps of 0, 1, 7, 20 and 45 between / around fragments (shorter than, equal to, several times the buffers)"""
+    case = G.FastaCase([G.Rec("s1", G.FILL_ACGT[:33]), G.Rec("s2", G.FILL_ACGT[40:40 + 33])], 5)
+    scs_a = [("a1", [["F", "s1", 1, 20, 1, []], ["G", 20, "scaffold"], ["F", "s2", 1, 20, -1, []], ["G", 7, "scaffold"], ["F", "s1", 5, 33, 0, []]])]
+    scs_b = [("b1", [["G", 45, "scaffold"], ["F", "s2", 5, 33, 1, []], ["G", 1, "scaffold"], ["G", 0, "scaffold"]]), ("b2", [["F", "s1", 5, 33, -1, []], ["G", 21, "scaffold"]])]
+    return case, scs_a, scs_b
+
+
+def designed_scripts(scs_a, scs_b, length, rng=None, count=0):
+    """every ordered selection of `length` distinct settings from the pool (or `count` random ones when given)"""
+    import itertools
+
+    pool = [(bs, gc) for bs in (1, 3, 7, 20, 21, 250_000) for gc in ("N", "n", "-")]
+    if rng is None:
+        picks = itertools.permutations(pool, length)
+    else:
+        picks = (rng.sample(pool, length) for _ in range(count))
+    for pick in picks:
+        yield [[bs, gc, (60, 7)[(i + bs) % 2], (scs_a, scs_b)[i % 2]] for i, (bs, gc) in enumerate(pick)]
+
+
+def random_script(case, assemblies, buffers, rng, n_steps):
+    steps = []
+    bs = rng.choice(buffers)
+    for _ in range(n_steps):
+        if rng.random() < 0.5:
+            bs = rng.choice(buffers)
+        steps.append([bs, rng.choice(GAP_CHARS), rng.choice((60, 7, case.width)), rng.choice(assemblies)[1]])
+    return steps
 
 
 # ----------------------------------------------------------------------------------------------------------
@@ -280,7 +446,7 @@ def index_rows(idx):
     return tuple((n, i.length, i.file_offset, i.residues_per_line, i.max_line_length) for n, i in idx.items())
 
 
-def memory_check(d, bs, n_buffers, width, seed):
+def memory_check(d, bs, n_buffers, width, seed, eol=b"\n"):
     """
     every public route that is given a buffer size, with a small buffer on a record / fragment / gap n_buffers
     buffers long -> (messages, measured peaks).  The same routes with a buffer larger than everything are
@@ -291,8 +457,10 @@ def memory_check(d, bs, n_buffers, width, seed):
     n = bs * n_buffers + 17
     seq = long_record(n, seed)
     gappy = gap_record(bs * n_buffers + 3)
-    case = G.FastaCase([G.Rec("short", b"ACGTNNAC"), G.Rec("long", seq), G.Rec("gappy", gappy)], width, b"\n", True)
+    case = G.FastaCase([G.Rec("short", b"ACGTNNAC"), G.Rec("long", seq), G.Rec("gappy", gappy)], width, eol, True)
     big = max(DEFAULT_BUFFER, len(seq), len(gappy)) + 1000
+    nominal_width, width = width, min(width, max(len(seq), len(gappy)))  # longest line actually in the file
+    layout = f"line {width}" + (" = whole record on one line" if nominal_width >= max(len(seq), len(gappy)) else "")
     path = d / "mem.fa"
     case.write(path)
     t = path.stat().st_mtime - 100
@@ -308,7 +476,7 @@ def memory_check(d, bs, n_buffers, width, seed):
         if judged and peak > limit:
             msgs.append(
                 f"{label}: peak traced memory {peak} bytes > limit {limit} = 16 x buffer + 64 KiB"
-                f"{' + 8 x line' if indexing else ''} (buffer_size {size}, line {width}, records of {len(seq)} and "
+                f"{' + 8 x line' if indexing else ''} (buffer_size {size}, {layout}, records of {len(seq)} and "
                 f"{len(gappy)} residues = {n_buffers} buffers): more than a few buffers of residues were held at once"
             )
         return res
@@ -523,12 +691,16 @@ def pick(msgs, route):
 def replay(inp):
     with G.quiet_logging(), G.workdir() as d:
         if inp["kind"] == "memory":
-            msgs, _ = memory_check(d, inp["buffer_size"], inp["n_buffers"], inp["width"], inp["seed"])
+            msgs, _ = memory_check(d, inp["buffer_size"], inp["n_buffers"], inp["width"], inp["seed"], b"\r\n" if inp.get("eol") == "CRLF" else b"\n")
             return pick(msgs, inp.get("route"))
         if inp["kind"] == "cli-memory":
             msgs, _ = cli_memory_check(d, inp["n_buffers"], inp["seed"])
             return pick(msgs, inp.get("route"))
         case = G.FastaCase.from_spec(inp["case"])
+        if inp["kind"] == "shared":
+            steps = [[st[0], st[1], st[2], [(n, sp) for n, sp in st[3]]] for st in inp["steps"]]
+            problems = check_shared(case, d / "r.fa", [steps])
+            return problems[0][0] if problems else None
         asms = [("replayed", [(n, s) for n, s in inp["assembly"]])] if inp.get("assembly") else assemblies_for(case, random.Random(0), 0)
         problems = check_file(case, d / "r.fa", inp["buffers"], asms, inp["line_length"])
         return problems[0][0] if problems else None
@@ -545,7 +717,10 @@ def run(tier, seed, **opts):
         "width+-1, 2*width+-1, run/record length+-1, 250000; per (file, assembly) all those buffers for streaming; one "
         "evaluation = one (file, all buffers) index comparison or one (file, assembly, all buffers) stream comparison or "
         "one tracemalloc measurement of one route (index_fasta_file, FastaIndex.auto_load cold / stale / warm, run_indexing, "
-        "FastaStream over those indexes, pretext-to-asm in the thorough tier) on records hundreds of buffers long; non-trivial = distinct such case with at least 3 distinct buffer sizes and a record "
+        "FastaStream over those indexes, pretext-to-asm in the thorough tier) on records hundreds of buffers long, wrapped at 60..100 and "
+        "unwrapped / long-line files; or one script of 2..6 calls on ONE FastaIndex object (several FastaStreams with different gap "
+        "characters N n - X, line lengths, assemblies and buffer_size settings, in every order of a designed pool / random), each call "
+        "compared with the model; non-trivial = distinct such case with at least 3 distinct buffer sizes and a record "
         "longer than the smallest buffer"
     )
     with G.quiet_logging(), G.workdir() as d:
@@ -563,6 +738,14 @@ def run(tier, seed, **opts):
             for label, scs in assemblies:
                 col.case(("stream", case.key(), repr(scs), line_length), nontrivial=len(buffers) >= 3,
                          sample={"kind": "file", "case": spec, "buffers": buffers, "line_length": line_length, "assembly": scs} if sample and label.startswith("random") else None)
+
+        def shared(case, scripts, sample=False):
+            spec = case.spec()
+            for msg, steps in check_shared(case, path, scripts)[:3]:
+                col.fail(msg, {"kind": "shared", "case": spec, "steps": steps})
+            for steps in scripts:
+                col.case(("shared", case.key(), repr(steps)), nontrivial=len(steps) >= 2,
+                         sample={"kind": "shared", "case": spec, "steps": steps} if sample else None)
 
         n = 0
         for bits in G.masks(max_mask, min_len=2):
@@ -590,18 +773,35 @@ def run(tier, seed, **opts):
                 keep = {1, 2, case.width - 1, case.width, case.width + 1, 250_000} & set(buffers)
                 rest = [b for b in buffers if b not in keep]
                 buffers = sorted(keep | set(rng.sample(rest, (12 if quick else 30) - len(keep))))
-            do(case, buffers, assemblies_for(case, rng, 2), rng.choice((60, 60, 7, case.width)), sample=k == 1)
+            asms = assemblies_for(case, rng, 2)
+            do(case, buffers, asms, rng.choice((60, 60, 7, case.width)), sample=k == 1)
+            scripts = [random_script(case, asms, buffers, rng, rng.randint(2, 6)) for _ in range(1 if quick else 2)]
+            shared(case, scripts, sample=k == 2)
+        # state across calls on a designed file: every ordered pair (thorough: and random triples) of settings
+        case, scs_a, scs_b = designed_shared_case()
+        if not col.full:
+            shared(case, list(designed_scripts(scs_a, scs_b, 2)))
+        if not quick and not col.full:
+            shared(case, list(designed_scripts(scs_a, scs_b, 3, rng, 1500)))
         # resource check
-        mem_jobs = [(2048, 220, 60, 1)] if quick else [(4096, 400, 60, 1), (1000, 500, 80, 2), (4093, 800, 100_000, 3), (64, 3000, 60, 4), (500, 400, 60, 5)]
+        # (buffer, record length in buffers, line width, seed[, "CRLF"]); width 10**9 = every record on one line
+        ONE_LINE = 10**9
+        mem_jobs = (
+            [(2048, 220, 60, 1), (1000, 400, ONE_LINE, 7)]
+            if quick
+            else [(4096, 400, 60, 1), (1000, 500, 80, 2), (4093, 800, 100_000, 3), (64, 3000, 60, 4), (500, 400, 60, 5),
+                  (1000, 400, ONE_LINE, 7), (500, 1000, ONE_LINE, 8, "CRLF"), (64, 3000, 5000, 9), (1000, 500, 50_000, 10, "CRLF"), (4096, 300, ONE_LINE, 11)]
+        )
         cli_jobs = [] if quick else [(34, 6)]
         peaks_seen = {}
         discr = {}
-        for bs, nb, width, ms in mem_jobs:
-            msgs, peaks = memory_check(d, bs, nb, width, ms)
-            inp = {"kind": "memory", "buffer_size": bs, "n_buffers": nb, "width": width, "seed": ms}
+        for bs, nb, width, ms, *crlf in mem_jobs:
+            msgs, peaks = memory_check(d, bs, nb, width, ms, b"\r\n" if crlf else b"\n")
+            inp = {"kind": "memory", "buffer_size": bs, "n_buffers": nb, "width": width, "seed": ms, "eol": "CRLF" if crlf else "LF"}
+            width = min(width, bs * nb + 20)  # the longest line actually in the file
             for m in msgs:
                 col.fail(m, dict(inp, route=m.split(": ")[0]))
-            key = f"buffer {bs} x {nb}, line {width}"
+            key = f"buffer {bs} x {nb}, line {width}{' CRLF' if crlf else ''}"
             peaks_seen[key] = peaks
             discr[key] = discrimination(peaks, bs, width)
             for label in peaks or {"none": 0}:
@@ -617,7 +817,8 @@ def run(tier, seed, **opts):
     return col.result(
         bounds=(
             f"masks to length {max_mask} (quick: every other layout) x 20 layouts; {n_random} random files; <= {12 if quick else 30} buffer sizes per "
-            "file; memory: " + "; ".join(f"{nb} buffers of {bs} (line {w})" for bs, nb, w, _ in mem_jobs)
+            "file; shared-index scripts: 1-2 random per random file, all 306 ordered pairs of 18 (buffer, gap character) settings on a designed file"
+            + ("" if quick else " and 1500 random triples") + "; memory: " + "; ".join(f"{nb} buffers of {bs} (line {'whole record' if w == ONE_LINE else w})" for bs, nb, w, *_ in mem_jobs)
             + "".join(f"; pretext-to-asm on {nb} buffers of {DEFAULT_BUFFER}" for nb, _ in cli_jobs)
             + "; limit 16 x buffer + 64 KiB (+ 8 x line while indexing)"
         ),
